@@ -271,6 +271,23 @@ func local() []cat.Program {
 			Data: map[string]vals.V{"who": s("xrnWHO"), "flat": strs("f1", "f2"),
 				"groups": anys(m(map[string]vals.V{"name": s("g1"), "items": strs("a", "b")}), m(map[string]vals.V{"name": s("g2"), "items": strs("c")}))}},
 
+		// a page that names a layout kept under layouts/ (a layout file next to the page, when one
+		// is created, takes precedence)
+		{Name: "x-layout-named", FileOnly: true, Canary: "xlnWHO", Feat: []string{"layout", "front-matter"},
+			Files: map[string]string{
+				"page.vuego":         "---\nlayout: side\ntitle: T-xln\n---\n" + `<article>{{ title }} {{ who }}</article>`,
+				"layouts/side.vuego": `<main data-l="side">{{ title }}<div v-html="content"></div></main>` + end,
+			},
+			Data: map[string]vals.V{"who": s("xlnWHO")}},
+		// LESS: a style block that @imports a file of variables (engine option "less" =
+		// vuego.WithLessProcessor); revisions change the imported file
+		{Name: "x-less-import", Opts: []string{"less"}, Canary: "xleWHO", Feat: []string{"less", "less-import"},
+			Files: map[string]string{
+				"page.vuego":      "<style type=\"text/css+less\">\n@import \"theme/vars.less\";\n.box {\n  color: @brand;\n  .in { margin: @gap * 2; }\n}\n</style>\n" + `<p class="box" :title="who">{{ who }}</p><style type="text/css+less">@c: red; .plain { color: @c; }</style>` + end,
+				"theme/vars.less": "@brand: red;\n@gap: 2px;\n",
+			},
+			Data: map[string]vals.V{"who": s("xleWHO")}},
+
 		// retype twins: DIFFERENT files with the SAME template text (so the same expression texts)
 		// whose data gives the same names differently typed values; on the shared engine they meet
 		// in both orders. Only expressions that are valid for every typing are used here.
